@@ -20,7 +20,7 @@ META = {
                     "duration of the block; configured durations: measurement, CZ, H, X (anything else 0)",
                     "stim's parser is trusted"],
     "floors": {
-        "quick": {"index_maps_sharing_an_identifier": 800, "circuits_dressed": 5500, "blocks_checked": 40000, "measurement_targets_checked": 40000, "blocks_longest_is_measurement": 3000,
+        "quick": {"programs_with_two_digit_qubit_indices": 400, "index_maps_sharing_an_identifier": 800, "circuits_dressed": 5500, "blocks_checked": 40000, "measurement_targets_checked": 40000, "blocks_longest_is_measurement": 3000,
                   "per_qubit_settings_used": 10000, "t2_gt_2t1": 1000, "inputs_with_measurement_inside_repeat": 1500},
         "thorough": {"circuits_dressed": 55000, "blocks_checked": 400000, "measurement_targets_checked": 400000},
     },
@@ -32,14 +32,24 @@ def plan(tier: str, seed: int) -> List[Dict[str, Any]]:
     return common.split_shards("gen", total, 16, seed, 14)
 
 
+def _qubits_of(circ):
+    for st in circ["steps"]:
+        if "sub" in st:
+            yield from _qubits_of(st["sub"])
+        else:
+            yield from st["q"]
+
+
 def gen_case(rng: random.Random, cls: str = "") -> Dict[str, Any]:
     if rng.random() < 0.35:
         source: Dict[str, Any] = {"library": libgen.gen_repcode_input(rng, max_distance=3, max_cycles=4)}
         nq = 2 * source["library"]["distance"] - 1
     else:
         kinds = ["Reset", "Barrier", "Hadamard", "Identity", "CPhase", "DispersiveMeasure", "Rx180", "Rx90", "Ry180", "Rym90", "Wait", "VirtualPark", "Barrier"]
-        source = {"program": gen.gen_program(rng, "nested_implicit", kinds=kinds, p_measure=0.25, p_cfg_kind=0.05, steps=(3, 12), reps=[1, 2])}
-        nq = 4
+        # a quarter of the programs address 13 qubits: two-digit qubit indices in every Stim target list (seeded change C14-r15: targets
+        # re-parsed digit by digit)
+        nq = 13 if rng.random() < 0.25 else 4
+        source = {"program": gen.gen_program(rng, "nested_implicit", kinds=kinds, p_measure=0.25, p_cfg_kind=0.05, steps=(3, 12), reps=[1, 2], qubits=nq)}
     names = [f"Q{i}" for i in range(nq)]
     individual = {}
     for n in names:
@@ -224,6 +234,8 @@ def run_shard(shard: Dict[str, Any]) -> Acc:
         case = gen_case(rng)
         acc.hist("source", "library" if "library" in case["source"] else "program")
         acc.hist("index_map", "empty" if not case["index_map"] else "mapped")
+        if "program" in case["source"] and any(q >= 10 for q in _qubits_of(case["source"]["program"]["circuit"])):
+            acc.count("programs_with_two_digit_qubit_indices")
         if len(set(case["index_map"].values())) < len(case["index_map"]):
             acc.count("index_maps_sharing_an_identifier")
         common.guarded(acc, check_case, case, acc, case={"noise_case": {k: v for k, v in case.items() if not k.startswith("_")}})
